@@ -163,20 +163,29 @@ def run(facts, res):
     # ------------------------------------------------------------------ T4
     gv = facts.body("melda::Melda::get_value")
     if gv is not None:
+        from ..defuse import inline_calls
+        gcfg = cfg_of(gv)
+        gedges = all_edge_lits(gv, facts)
+        pass_e = {e for e, l in gedges if l.kind == "call" and callee_name(l.term) == "contains_key" and l.truth is True and contains_call(l.term[2][0], "get_revisions")}
+        # edges on which no revision was requested (the Option<&str> parameter, or the parsed option, is None)
+        none_e = set()
+        for e, l in gedges:
+            if l.kind == "variant" and l.variants == {"None"}:
+                tt = inline_calls(l.term, facts)
+                if any(x[0] == "param" and x[1] == 3 for x in walk(tt)) and not contains_call(tt, "get") and not contains_call(tt, "get_winner"):
+                    none_e.add(e)
         n = 0
         for bi, t in gv.calls():
             if t.callee is None or t.callee.target() != "datastorage::DataStorage::read_object":
                 continue
-            rev = arg_term(gv, t, 1, 20)
-            if contains_call(rev, "revision::Revision::from"):
-                n += 1
-                ok = False
-                for l in lits_of(gv, bi, facts):
-                    if l.kind == "call" and callee_name(l.term) == "contains_key" and l.truth is True and contains_call(l.term[2][0], "get_revisions"):
-                        ok = True
-                res.instance("T4", "get_value(uuid, Some(rev)): data read only if the tree records rev: %s" % ok, gv.loc(t.line))
-                if not ok:
-                    res.violation("T4", "get_value|unchecked-revision", "get_value reads an arbitrary revision without checking that it belongs to the object's tree", gv.loc(t.line))
+            rev = inline_calls(arg_term(gv, t, 1, 24), facts)
+            if not contains_call(rev, "revision::Revision::from"):
+                continue      # reads the winner only
+            n += 1
+            ok = bool(pass_e) and not gcfg.reaches(0, bi, avoid=pass_e | none_e) and bi != 0
+            res.instance("T4", "get_value(uuid, Some(rev)): the data read is reachable only through `get_revisions().contains_key(rev)` (or when no revision was requested): %s" % ok, gv.loc(t.line))
+            if not ok:
+                res.violation("T4", "get_value|unchecked-revision", "get_value can read an arbitrary requested revision without checking that it belongs to the object's tree", gv.loc(t.line))
         res.floor("T4", "historical read in get_value", n, 1)
     gp = facts.body("melda::Melda::get_parent_revision")
     if gp is not None:
